@@ -15,6 +15,11 @@ F3 = {"flavor": "f64", "kind": "counter", "counter": True, "threads": ["t1", "t2
 I3 = dict(F3, flavor="int", kind="intcounter")
 
 
+# the same scripts at another magnitude: every increment is far below f64::EPSILON, sums stay exact
+F2s = dict(F2, scale=2.0 ** -60)
+FLs = dict(FL, scale=2.0 ** -1070)
+
+
 def run(ctx):
     exe = build_harness()
     stats, samples = new_stats(), []
@@ -25,7 +30,11 @@ def run(ctx):
         run_scenario(ctx, "C01", exe, FL, "FL", stats, samples, *O, model=True, nrandom=0, kinds=["counter"])
         run_scenario(ctx, "C01", exe, IL, "IL", stats, samples, *O, model=True, nrandom=0, kinds=["intcounter"])
         run_scenario(ctx, "C01", exe, FR, "FR", stats, samples, *O, model=True, nrandom=0, kinds=["counter"])
+        run_scenario(ctx, "C01", exe, F2s, "F2s", stats, samples, *O, model=True, nrandom=50, kinds=["counter", "countervec_child"])
+        run_scenario(ctx, "C01", exe, FLs, "FLs", stats, samples, *O, model=True, nrandom=0, kinds=["counter"])
     else:
+        for sc, lb in ((F2s, "F2s"), (FLs, "FLs"), (dict(F3, scale=2.0 ** -60), "F3s"), (dict(F2, scale=2.0 ** 900), "F2h")):
+            run_scenario(ctx, "C01", exe, sc, lb, stats, samples, *O, model=True, nrandom=2000, kinds=["counter", "countervec_child"])
         for sc, lb, kinds in ((F2, "F2", ["counter", "countervec_child"]), (I2, "I2", ["intcounter", "intcountervec_child"]), (FL, "FL", ["counter", "countervec_child"]),
                               (IL, "IL", ["intcounter", "intcountervec_child"]), (FR, "FR", ["counter"]), (dict(FR, flavor="int", kind="intcounter"), "IR", ["intcounter"])):
             run_scenario(ctx, "C01", exe, sc, lb, stats, samples, *O, model=True, nrandom=2000, kinds=kinds)
@@ -34,7 +43,7 @@ def run(ctx):
     finish_cov(ctx, stats, samples, "AtomImpl exhaustively checked by TLC (Atomicity, NoLostIncrement, ReadsExplained, Monotone, Termination; also with spurious CAS failure); "
                "every edge replayed in the real Counter/IntCounter (standalone and as a vector child; local flush); every distinct history judged by CounterReads")
     ctx.assumptions += ["sequentially consistent executions; per-location coherence of relaxed loads is assumed from the Rust memory model",
-                        "2-3 threads, <= 3 calls each, increments are distinct powers of two"]
+                        "2-3 threads, <= 3 calls each, increments are distinct powers of two, concretised at scales 1, 2^-60, 2^-1070 (thorough also 2^900)"]
 
 
 def replay(path):
